@@ -177,3 +177,11 @@ package influxql
 //@   ensures [C06] @keyword call("Lookup", ident) != IDENT ==> result
 //@   loop 1 step [C06] @firstchar (i == 0 && !spec_isIdentFirst(r)) ==> false
 //@   loop 1 step [C06] @laterchar (i > 0 && !spec_isIdentChar(r)) ==> false
+
+// QuoteIdent is on every printing path: it may write only memory it allocated
+// itself (in particular no builder or buffer that outlives the call).
+//@ func QuoteIdent
+//@   props C06 C04 C17
+//@   safety C04
+//@   modifies fresh
+//@   frameprops C17 C14
